@@ -79,7 +79,10 @@ def gen_table(rng, idx):
     dense = [(0, 0, pmax), (1, 0, fmax), (2, 0, rng.choice((0, 1, 5))), (3, 0, rng.choice((0, 2, 8))),
              (8, 0, rng.choice((1, 2, 7))), (9, 0, rng.choice((1, 3))), (10, 0, rng.choice((0, 2))), (11, 0, 2),
              (12, 0, 1), (13, 0, 1), (14, 0, 1), (18, 0, rng.choice((0, 1, 2)))]
-    cls = ("table", "full", "table", "unordered", "sparse", "close", "silent", "error35")[idx % 8]
+    cls = ("table", "full", "table", "unordered", "sparse", "close", "silent", "error35", "silent-then-table",
+           "silent-then-table")[idx % 10]
+    if cls == "silent-then-table":
+        return cls, dense
     if cls == "table":
         return "table", dense
     if cls == "full":
@@ -110,6 +113,20 @@ def run_versions(spec, res):
     cl.version_table = list(table)
     for b in cl.brokers.values():
         b.api_versions = mode if mode in ("close", "silent", "error35") else "table"
+    switch_t = None
+    if mode == "silent-then-table":
+        # the broker is stalled at first (one version discovery gives up) and answers later ones: two overlapping
+        # discoveries of the same client end differently
+        for b in cl.brokers.values():
+            b.api_versions = "stall"
+        # the first discovery (started by the producer at t=0) gives up after four one-second attempts; the second
+        # one must start before that and be answered after it
+        switch_t = rng.choice((4.05, 4.1, 4.25, 4.25, 3.2, 3.7, 5.1))
+
+        def wake():
+            for b in cl.brokers.values():
+                b.release_stalled()
+        w.clock.labelled(switch_t, "fault.version_discovery_answers", wake)
     topic = "vt"
     P = rng.choice((1, 2))
     cl.add_topic(topic, {p: rng.randint(1, nb) for p in range(P)})
@@ -117,6 +134,8 @@ def run_versions(spec, res):
     sends = []
     codec = rng.choice((None, None, 1))
     who_first = rng.choice(("producer", "consumer", "client"))
+    if mode == "silent-then-table":
+        who_first = "producer"
     with Traps():
         client = w.client(timeout=1000, enable_protocol_version_discovery=True)
         producer = Producer(client, req_acks=1, max_req_attempts=4, retry_interval=0.1, codec=codec)
@@ -150,8 +169,12 @@ def run_versions(spec, res):
         for i in range(n):
             w.clock.labelled(rng.choice((0.0, 0.0, 0.05, 0.5)), "act.send", send, i)
         if who_first != "consumer":
-            w.clock.labelled(rng.choice((0.0, 0.3)), "act.consume", start_consumers)
-        w.run(until=w.clock.seconds() + 12.0)
+            w.clock.labelled(rng.choice((0.0, 0.3)) if switch_t is None else round(switch_t - rng.choice((0.2, 0.4, 0.7, 0.9)), 3),
+                             "act.consume", start_consumers)
+        if switch_t is not None:
+            for i in range(n, n + 3):
+                w.clock.labelled(switch_t + rng.choice((1.5, 3.0, 5.0)), "act.send", send, i)
+        w.run(until=w.clock.seconds() + (12.0 if switch_t is None else 20.0))
         for c in consumers:
             try:
                 c.stop()
@@ -166,6 +189,7 @@ def run_versions(spec, res):
     res.n_sub += 1
     res.hit("version_scenarios")
     failed_disc = mode in ("close", "silent", "error35")
+    mixed_disc = mode == "silent-then-table"
     if failed_disc:
         res.hit("discovery_failed_scenarios")
     census = frames_ok(res, cl, "version-discovery")
@@ -183,7 +207,13 @@ def run_versions(spec, res):
         if first_av is None or first_av > i:
             res.violate("versions/request-before-discovery", "%s v%d was sent before any ApiVersions request although "
                         "discovery is enabled" % (e["api"], v))
-        if failed_disc:
+        if mixed_disc:
+            lo, hi = adv[key]
+            if not (lo <= v <= hi) or v not in IMPLEMENTED[key]:
+                res.violate("versions/version-not-advertised", "%s v%d sent; the broker advertises %d..%d once it "
+                            "answers" % (e["api"], v, lo, hi))
+            res.ob("version_advertised_and_implemented")
+        elif failed_disc:
             if v != 0:
                 res.violate("versions/no-fallback-to-v0/%s" % mode, "discovery failed (%s) but %s v%d was sent"
                             % (mode, e["api"], v))
